@@ -843,9 +843,13 @@ def struct_pack(ctx, fmt, values):
             out = out + SBytes(bs)
             continue
         width, signed = _FMT_WIDTH[code]
-        if not isinstance(v, (SInt, SBool, int)):
+        if not sym.is_intlike(v):
             py_raise(struct.error('required argument is not an integer'))
         vt = as_int_term(v)
+        vbv = sym._bv_of_bv2int(vt)
+        if vbv is not None and width == 1 and vbv.size() <= (7 if signed else 8):
+            out = out + SBytes(z3.Unit(vt))          # a bit-vector byte: in range by construction
+            continue
         lo, hi = (-(1 << (8 * width - 1)), (1 << (8 * width - 1)) - 1) if signed else (0, (1 << (8 * width)) - 1)
         if not ctx.branch(z3.And(vt >= lo, vt <= hi)):
             py_raise(struct.error("'%s' format requires %d <= number <= %d" % (code, lo, hi)))
@@ -908,6 +912,16 @@ def struct_unpack(ctx, fmt, data, offset, exact):
             res.append(SInt(direct))
             pos = pos + width
             continue
+        if width == 1:
+            one = sym.rope_subseq(d.t, z3.simplify(pos if z3.is_expr(pos) else as_int_term(pos)), z3.IntVal(1))
+            els1 = sym.flatten_units(one) if one is not None else None
+            if els1 is not None and len(els1) == 1:
+                e1 = els1[0]
+                if sym._bv_of_bv2int(e1) is None:
+                    ctx.assume(z3.And(e1 >= 0, e1 < 256), silent=True)
+                res.append(SInt(z3.If(e1 >= 128, e1 - 256, e1) if signed else e1))
+                pos = pos + 1
+                continue
         ctx.assume(sym.byte_range_facts(d.t, pos, width), silent=True)
         if big:
             acc = sym.bytes_to_int_be(d.t, pos, width, signed)
@@ -925,14 +939,14 @@ def struct_unpack(ctx, fmt, data, offset, exact):
 def _unpack_peephole(ctx, seq_t, pos, width, signed, big):
     """If the `width` bytes at `pos` are exactly the big-endian digits of some term x produced by the integer packer
     (and x is provably in the type's range), unpack yields x itself: unpack(pack(x)) == x without digit arithmetic."""
-    if not big:
-        return None
     piece = sym.rope_subseq(seq_t, z3.simplify(pos if z3.is_expr(pos) else sym.as_int_term(pos)), z3.IntVal(width))
     if piece is None:
         return None
     els = sym.flatten_units(piece)
     if els is None or len(els) != width:
         return None
+    if not big:
+        els = list(reversed(els))
     last = els[-1]
     if not (z3.is_app(last) and last.decl().kind() == z3.Z3_OP_MOD and z3.is_int_value(last.arg(1)) and last.arg(1).as_long() == 256):
         return None
